@@ -84,6 +84,10 @@ def text(n, home, top=True):
         return q(n[1], n[2], home) + n[3]
     if k == 'col':
         return q(n[1], n[2], home) + '%s:%s' % (n[3], n[3])
+    if k == 'union':
+        return '(%s)' % ','.join(text(a, home, False) for a in n[1])
+    if k == 'isect':
+        return '%s %s' % (text(n[1], home, False), text(n[2], home, False))
     if k == 'name':
         return n[2] if home[0] == n[1] else "'[%s]'!%s" % (n[1], n[2])
     if k == 'op':
@@ -215,6 +219,16 @@ class Env:
             return Rng(n[1], n[2], parse_rect(n[3]))
         if k == 'col':
             return Rng(n[1], n[2], self.col_rect(n[1], n[2], n[3]), whole=True)
+        if k == 'union':
+            return Multi([self.ev(a, host) for a in n[1]])
+        if k == 'isect':
+            a, b = self.ev(n[1], host), self.ev(n[2], host)
+            if (a.book, a.sheet) != (b.book, b.sheet):
+                return NULL
+            c1, r1, c2, r2 = max(a.rect[0], b.rect[0]), max(a.rect[1], b.rect[1]), min(a.rect[2], b.rect[2]), min(a.rect[3], b.rect[3])
+            if c1 > c2 or r1 > r2:
+                return NULL
+            return Rng(a.book, a.sheet, (c1, r1, c2, r2))
         if k == 'name':
             nk = '%s|%s' % (n[1], n[2])
             if nk not in self.names:
@@ -293,8 +307,11 @@ class Env:
             return B(x == BLANK)
         if name in ('SUM', 'MAX', 'MIN', 'COUNT'):
             nums = []
+            items = []
             for a in args:
                 x = self.ev(a, host)
+                items.extend(x.areas if isinstance(x, Multi) else [x])
+            for x in items:
                 if isinstance(x, Rng) or isinstance(x, list):
                     g = x.grid(self) if isinstance(x, Rng) else x
                     for row in g:
@@ -339,6 +356,13 @@ class Env:
         if isinstance(x, list):
             return x[0][0]
         return x
+
+
+class Multi:
+    """a multi-area reference (union): each cell counts once per covering area."""
+
+    def __init__(self, areas):
+        self.areas = areas
 
 
 class Cycle(Exception):
